@@ -41,6 +41,52 @@ def bin_path(profile, binname):
 
 
 _built = set()
+MIRI_DIR = os.path.join(ROOT, "harness-miri")
+
+
+def asan_target_dir():
+    return os.environ.get("XV_ASAN_TARGET_DIR", os.path.join(HARNESS, "target-asan"))
+
+
+def build_job(job):
+    if job.kind == "miri":
+        build_miri()
+    elif job.kind == "asan":
+        build_asan(job.profile, job.pkg)
+    else:
+        build(job.profile, job.pkg)
+
+
+def _locked_run(key, cmd, cwd, env, what):
+    if key in _built:
+        return
+    os.makedirs(target_dir(), exist_ok=True)
+    lockf = open(os.path.join(target_dir(), ".xv-build-lock"), "w")
+    fcntl.flock(lockf, fcntl.LOCK_EX)
+    try:
+        t0 = time.time()
+        r = subprocess.run(cmd, cwd=cwd, env=env, stdout=subprocess.PIPE, stderr=subprocess.STDOUT, text=True)
+        if r.returncode != 0:
+            log(r.stdout[-6000:])
+            raise BuildError(f"{what} failed")
+        log(f"[build] {what} ok in {time.time() - t0:.1f}s")
+    finally:
+        fcntl.flock(lockf, fcntl.LOCK_UN)
+        lockf.close()
+    _built.add(key)
+
+
+def build_miri():
+    env = dict(os.environ)
+    env.update({"CARGO_NET_OFFLINE": "true", "MIRIFLAGS": "-Zmiri-disable-isolation"})
+    env.pop("RUSTFLAGS", None)
+    _locked_run(("miri",), ["cargo", "+nightly", "miri", "run", "--offline", "-q", "--", "noop"], MIRI_DIR, env, "xv_miri [miri]")
+
+
+def build_asan(profile, pkg):
+    env = dict(os.environ)
+    env.update({"CARGO_NET_OFFLINE": "true", "RUSTFLAGS": "--cfg xet_verif -Zsanitizer=address -Cforce-frame-pointers=yes", "CARGO_TARGET_DIR": asan_target_dir()})
+    _locked_run(("asan", profile, pkg), ["cargo", "+nightly", "build", "--offline", "--profile", profile, "-p", pkg, "--target", "x86_64-unknown-linux-gnu"], HARNESS, env, f"{pkg} [{profile}, asan]")
 
 
 def build(profile, pkg):
@@ -78,7 +124,7 @@ class BuildError(Exception):
 
 class Job:
     def __init__(self, name, pkg, binname, engine, profile="prodlike", args=None, env=None, workers=(4, 16), cases=(100, 1000),
-                 time_s=(60, 900), crash_is_violation=True, props=None, extra_workers_arg=False):
+                 time_s=(60, 900), crash_is_violation=True, props=None, extra_workers_arg=False, kind="native", tiers=("quick", "thorough")):
         self.name = name
         self.pkg = pkg
         self.binname = binname
@@ -91,13 +137,27 @@ class Job:
         self.time_s = time_s
         self.crash_is_violation = crash_is_violation
         self.extra_workers_arg = extra_workers_arg
+        self.kind = kind
+        self.tiers = tiers
+        if kind in ("miri", "asan"):
+            self.env = dict(self.env)
+            if kind == "miri":
+                self.env.setdefault("MIRIFLAGS", "-Zmiri-disable-isolation")
+            else:
+                self.env.setdefault("ASAN_OPTIONS", "halt_on_error=1:abort_on_error=1:detect_leaks=0:allocator_may_return_null=1")
 
     def tier_idx(self, tier):
         return 0 if tier == "quick" else 1
 
     def argv(self, tier, seed, worker, only=None):
         t = self.tier_idx(tier)
-        a = [bin_path(self.profile, self.binname), self.engine, "--seed", str(seed), "--worker", str(worker)]
+        if self.kind == "miri":
+            a = ["cargo", "+nightly", "miri", "run", "--offline", "-q", "--manifest-path", os.path.join(MIRI_DIR, "Cargo.toml"), "--"]
+        elif self.kind == "asan":
+            a = [os.path.join(asan_target_dir(), "x86_64-unknown-linux-gnu", self.profile, self.binname)]
+        else:
+            a = [bin_path(self.profile, self.binname)]
+        a += [self.engine, "--seed", str(seed), "--worker", str(worker)]
         if self.extra_workers_arg:
             a += ["--workers", str(self.workers[t])]
         if only is not None:
@@ -116,7 +176,7 @@ class Job:
         return a
 
     def describe(self):
-        return {"job": self.name, "engine": self.engine, "profile": self.profile, "env": self.env}
+        return {"job": self.name, "engine": self.engine, "profile": self.profile, "env": self.env, "kind": self.kind}
 
 
 def run_worker(job, tier, seed, worker, only=None, scratch_root=None):
@@ -125,6 +185,8 @@ def run_worker(job, tier, seed, worker, only=None, scratch_root=None):
     env = dict(os.environ)
     env.update(BASE_ENV)
     env.update({k: str(v) for k, v in job.env.items()})
+    if job.kind == "miri":
+        env.pop("RUSTFLAGS", None)
     scratch = tempfile.mkdtemp(prefix=f"xv-{job.name}-{worker}-", dir=scratch_root)
     env["TMPDIR"] = scratch
     env["XV_SCRATCH"] = scratch
@@ -237,7 +299,7 @@ def run_check(pid, tier, seed):
     t0 = time.time()
     os.makedirs(EVIDENCE, exist_ok=True)
     os.makedirs(REPLAYS, exist_ok=True)
-    jobs = conf["jobs"]
+    jobs = [j for j in conf["jobs"] if tier in j.tiers]
     if conf.get("custom"):
         import crashdrive
         try:
@@ -249,8 +311,8 @@ def run_check(pid, tier, seed):
         m, inconclusive_workers, n_tasks = crashdrive.run(pid, tier, seed, conf)
         return finish(pid, tier, seed, conf, m, inconclusive_workers, n_tasks, t0)
     try:
-        for (profile, pkg) in sorted({(j.profile, j.pkg) for j in jobs}):
-            build(profile, pkg)
+        for j in jobs:
+            build_job(j)
     except BuildError as e:
         print(f"INCONCLUSIVE property={pid} reason=build-failed {e}")
         return 3
@@ -305,7 +367,7 @@ def run_check(pid, tier, seed):
 
 
 def finish(pid, tier, seed, conf, m, inconclusive_workers, n_workers_total, t0):
-    jobs = conf["jobs"]
+    jobs = [j for j in conf["jobs"] if tier in j.tiers]
     known = load_known()
     new_violations = []
     known_hits = {}
@@ -409,7 +471,7 @@ def replay(pid, path):
     if job is None:
         print("job of the replay file no longer exists:", jd["job"])
         return 2
-    build(job.profile, job.pkg)
+    build_job(job)
     w = v["witness"]
     r = run_worker(job, d.get("tier", "quick"), w.get("seed", 1), w.get("worker", 0), only=w.get("only", 0))
     rep = r["report"]
